@@ -378,6 +378,13 @@ def real_insts(prop, tier, seed, pixels_quick, pixels_thorough, cpus_quick, cpus
     quick_ids = set(quick_geoms or list(geometries("quick", seed).keys()))
     if tier != "thorough":
         G = {k: g for k, g in G.items() if k in quick_ids}
+    else:
+        # keep a thorough run within ~2 h on 16 cores: the quick geometries, 5 of the fixed
+        # ones (rotated by VERIF_SEED) and the seeded random ones
+        fixed = [k for k in G if k not in quick_ids and not k.startswith("rnd") and k not in geometries("quick", seed)]
+        rot = seed % max(1, len(fixed))
+        keep = set(quick_ids) | set(geometries("quick", seed)) | set((fixed[rot:] + fixed[:rot])[:5]) | set([k for k in G if k.startswith("rnd")][:4])
+        G = {k: g for k, g in G.items() if k in keep}
     insts = []
     skipped = []
     for gid, g in G.items():
@@ -410,7 +417,7 @@ def real_insts(prop, tier, seed, pixels_quick, pixels_thorough, cpus_quick, cpus
 
 
 def gen_c10(tier, seed):
-    G, real, insts, skipped = real_insts("C10", tier, seed, ["U8", "U16"], ["U8", "U8x3", "U8x4", "U16", "U16x2", "U16x4"],
+    G, real, insts, skipped = real_insts("C10", tier, seed, ["U8", "U16"], ["U8", "U8x3", "U8x4", "U16"],
                                          ["None", "Avx2"], CPUS, "uniform", t=1500, quick_geoms=["bil_8_3", "lan_5c_7", "box_12_2"])
     # premise of the arithmetic lemma, checked concretely on the real chunks: sum(c) = 2^p + e, |e| * max < 2^(p-1)
     premise = {}
@@ -433,7 +440,7 @@ def gen_c10(tier, seed):
 
 
 def gen_c18(tier, seed):
-    G, real, insts, skipped = real_insts("C18", tier, seed, ["U8", "U16"], ["U8", "U8x2", "U8x4", "U16", "U16x3"],
+    G, real, insts, skipped = real_insts("C18", tier, seed, ["U8", "U16"], ["U8", "U8x4", "U16"],
                                          ["None", "Sse4_1"], CPUS, "bounded", only_filters=ideal.NONNEG, t=1500, quick_geoms=["bil_8_3", "ham_7_5i"])
     G2, real2, insts2, _ = real_insts("C18", tier, seed, ["U8"], ["U8", "U16"], ["None"], ["None", "Avx2"], "monotone",
                                       only_filters=ideal.NONNEG, t=1500, quick_geoms=["bil_8_3", "ham_7_5i"])
